@@ -193,6 +193,10 @@ def build(t):
         else:
             data["_order"] = tuple(t[3])
         c = type("Decl" + tname(t), (xo.Array,), data)
+    elif k == "A" and DECL[0] == "np-extents" and tuple(t[3]) == tuple(range(len(t[2]))):
+        # the static extents are given as numpy integers (a shape computed with numpy), in the tuple form of indexing
+        it = build(t[1])
+        c = it[tuple(slice(None) if d is None else np.int64(d) for d in t[2])]
     elif k == "A":
         it = build(t[1])
         ident = tuple(t[3]) == tuple(range(len(t[2])))
